@@ -33,6 +33,17 @@ func init() {
 				d := randomDoc(rng, o)
 				cs := Case{"doc": d, "tracks": tracks[rng.Intn(len(tracks))], "program": -1, "instrument": "\x00default", "ofile": rng.Intn(4) == 0,
 					"flags": randomFlags(rng, 0.15)}
+				if i%7 == 3 { // pitches far above the MIDI range: whatever crd does with them, the file must stay well-formed
+					for j := range d {
+						if !d[j].Rest && rng.Intn(2) == 0 {
+							d[j].Deg = fmt.Sprint(30 + rng.Intn(20))
+						}
+					}
+					cs["doc"] = d
+				}
+				if i%5 == 2 {
+					cs["debug"] = true
+				}
 				switch rng.Intn(6) {
 				case 0:
 					cs["program"] = rng.Intn(256)
@@ -60,9 +71,13 @@ func init() {
 			if ins := cs(k, "instrument"); ins != "\x00default" {
 				args = append(args, "--instrument", ins)
 			}
+			if cb(k, "debug") {
+				args = append(args, "--debug")
+			}
 			var out []byte
 			if cb(k, "ofile") {
-				path := c.writeTemp(fmt.Sprintf("o%d.mid", nextID()), "")
+				// the output file already exists and is longer than the result
+				path := c.writeTemp(fmt.Sprintf("o%d.mid", nextID()), strings.Repeat("stale bytes of an earlier, longer file ", 3000))
 				r := c.crd(append(args, "-o", path), d.YAML())
 				if r.Exit == 0 && !r.TimedOut && !r.Panic {
 					out, _ = os.ReadFile(path)
